@@ -66,7 +66,8 @@ Ltac classes t :=
   [|destruct (t =? ch_r) eqn:Er; simpl orb;
   [|destruct (t =? ch_c) eqn:Ec;
   [|destruct (t =? ch_b) eqn:Eb; simpl orb;
-  [|destruct (t =? ch_s) eqn:Es; rewrite ?andb_false_r, ?andb_true_r]]]]]]].
+  [|destruct (t =? ch_s) eqn:Es; rewrite ?andb_false_r, ?andb_true_r;
+  [|destruct (t =? ch_pct) eqn:Epc]]]]]]]].
 
 (* pyanalyze accepts the argument and it is not an overflow case: CPython converts it *)
 Lemma accept_ok_conv_ok : forall is_bytes t o,
